@@ -562,9 +562,19 @@ def invariant_loop(interp, node, st, man, lo, hi):
             elif isinstance(v0, Ref) and isinstance(state.heap.get(v0.id), list):
                 # python list of scalars: every element havocked, the length is kept (checked at the end of the body)
                 l0 = state.heap[v0.id]
-                if not all(T.is_num(state.deref(x)) or T.is_boolish(state.deref(x)) for x in l0):
-                    raise Unsupported(f"list {n} with non-scalar elements modified in a loop with invariant")
-                state.heap[v0.id] = [_fresh_like(state.deref(x), f"{n}{k}_h") for k, x in enumerate(l0)]
+                new_l = []
+                for k, x in enumerate(l0):
+                    d = state.deref(x)
+                    if T.is_num(d) or T.is_boolish(d):
+                        new_l.append(_fresh_like(d, f"{n}{k}_h"))
+                    elif isinstance(x, Ref) and isinstance(d, Arr):
+                        # element bound to an array: afterwards it is bound to *some* array of this shape, a different object
+                        # from every array that existed before the loop (elements are re-bound, e.g. rolled; an in-place store
+                        # into an element would go to the fresh object, never to an array another name still refers to)
+                        new_l.append(state.alloc(sym_array(T.Fresh.name(f"{n}{k}_h"), d.shape, cell_sort(d)), f"{n}[{k}]"))
+                    else:
+                        raise Unsupported(f"list {n} with elements that are neither scalars nor arrays modified in a loop with invariant")
+                state.heap[v0.id] = new_l
                 list_lengths[n] = len(l0)
     list_lengths = {}
     pre = st.snapshot()
@@ -612,10 +622,12 @@ def invariant_loop(interp, node, st, man, lo, hi):
             st.restore(pre)
             if interp.explorer.decide(T.Fresh.bool("loop_exit")):
                 st.restore(snap)
+                st.ghost[f"{loopname}.exit"] = "break"
                 return
     # ---- exit
     st.restore(pre)
     havoc(st)
+    st.ghost[f"{loopname}.exit"] = "exhausted"       # ghost: how the loop was left (contracts tell the exits apart)
     if is_for:
         iend = T.Fresh.int(ivar + "_end")
         st.assume(T.to_z3(T.ite(T.cmp("<=", lo, hi), T.cmp("==", iend, hi), T.cmp("==", iend, lo))))
